@@ -1,2 +1,63 @@
-(* placeholder; theorems are added below *)
-From Hexital Require Import Base.Prelude.
+(* C01 - Incremental appends give exactly the batch result (schedule independence).
+   Proved for the faithful engine of Model/Engine.v (resume index, skip-if-present, in-place
+   set_reading) on the base timeframe, for every leaf indicator whose _calculate_reading is
+   pure and causal, and those two obligations are discharged for HLA, TR, OBV and EMA (any
+   period >= 1, any input whose lookup does not read the indicator's own slot).  For the
+   other indicators, composite ones and collapsing timeframes the property is decided by
+   the bit-exact correspondence and the falsifier (C03_recollapse covers the manager half). *)
+From Coq Require Import ZArith List String Bool.
+From Hexital Require Import Base.Prelude Base.Num Model.Manager Model.Candle Model.Readings Model.Engine
+  Proofs.EngineProofs Proofs.CausalProofs.
+Import ListNotations.
+Local Open Scope Z_scope.
+
+(* the generic statement: any split of a stream of fresh candles into append chunks, fed to
+   an empty indicator through calculate() after each chunk, ends in exactly the store that
+   one calculate() over the whole stream produces - same candles, same readings, or the
+   same exception *)
+Theorem C01_schedule_independence_leaf :
+  forall (O : NumOps) (I : ind O) (calc : store O -> Z -> res (val O)),
+  i_subs O I = [] /\ i_managed O I = [] ->
+  (forall rec st i, calc_reading O rec I st i = (v <- calc st i ;; Ok (v, st))) ->
+  Causal O I calc ->
+  forall chunks : list (list (cd (payload O))), Forall (Forall (fresh O I)) chunks ->
+  engine_chunks O I [] chunks = calculate O I (List.concat chunks).
+Proof. intros O I calc Hl Hp Hc chunks Hf. eapply engine_incremental_equals_batch; eassumption. Qed.
+Print Assumptions C01_schedule_independence_leaf.
+
+(* ... into a pre-loaded (already calculated) indicator as well *)
+Theorem C01_append_to_calculated_leaf :
+  forall (O : NumOps) (I : ind O) (calc : store O -> Z -> res (val O)),
+  i_subs O I = [] /\ i_managed O I = [] ->
+  (forall rec st i, calc_reading O rec I st i = (v <- calc st i ;; Ok (v, st))) ->
+  Causal O I calc ->
+  forall (cs : store O) (new : list (cd (payload O))), IsCanon O I calc cs -> Forall (fresh O I) new ->
+  calculate O I (cs ++ new) = canon_acc O I calc cs new.
+Proof.
+  intros O I calc Hl Hp Hc cs new Hcs Hf. rewrite (calculate_is_leaf O I Hl calc Hp). apply append_is_canon; assumption.
+Qed.
+Print Assumptions C01_append_to_calculated_leaf.
+
+(* the obligations hold for these indicators *)
+Theorem C01_obligations_HLA : forall (O : NumOps) (I : ind O), i_kind O I = K_HLA ->
+  (forall rec st i, calc_reading O rec I st i = (v <- pure_calc O I st i ;; Ok (v, st))) /\ Causal O I (pure_calc O I).
+Proof. intros O I K. split; [intros; apply hla_pure; exact K|apply hla_causal; exact K]. Qed.
+Print Assumptions C01_obligations_HLA.
+
+Theorem C01_obligations_TR : forall (O : NumOps) (I : ind O), i_kind O I = K_TR ->
+  (forall rec st i, calc_reading O rec I st i = (v <- pure_calc O I st i ;; Ok (v, st))) /\ Causal O I (pure_calc O I).
+Proof. intros O I K. split; [intros; apply tr_pure; exact K|apply tr_causal; exact K]. Qed.
+Print Assumptions C01_obligations_TR.
+
+Theorem C01_obligations_OBV : forall (O : NumOps) (I : ind O), i_kind O I = K_OBV ->
+  (forall rec st i, calc_reading O rec I st i = (v <- pure_calc O I st i ;; Ok (v, st))) /\ Causal O I (pure_calc O I).
+Proof. intros O I K. split; [intros; apply obv_pure; exact K|apply obv_causal; exact K]. Qed.
+Print Assumptions C01_obligations_OBV.
+
+Theorem C01_obligations_EMA : forall (O : NumOps) (I : ind O) period input smoothing,
+  i_kind O I = K_EMA period input smoothing -> 1 <= period -> stable O I input ->
+  (forall rec st i, calc_reading O rec I st i = (v <- pure_calc O I st i ;; Ok (v, st))) /\ Causal O I (pure_calc O I).
+Proof.
+  intros O I period input sm K Hp Hs. split; [intros; eapply ema_pure; exact K|eapply ema_causal; eassumption].
+Qed.
+Print Assumptions C01_obligations_EMA.
